@@ -18,6 +18,7 @@ import (
 const stepBudget = 3000000
 
 var ptrRe = regexp.MustCompile(`0x[0-9a-fA-F]{7,}`)
+var ptrWhole = regexp.MustCompile(`^0x[0-9a-fA-F]{7,}$`)
 var gorRe = regexp.MustCompile(`goroutine \d+`)
 
 var traceRe = regexp.MustCompile(`(?s) stack trace:\n.*?\n\n\n?`)
@@ -25,13 +26,14 @@ var traceRe = regexp.MustCompile(`(?s) stack trace:\n.*?\n\n\n?`)
 // Heap addresses are stripped ONLY in the contexts where the code as it is prints them on
 // purpose (explicit pointer printing).  An address anywhere else -- e.g. a new error message
 // that dumps a value with %v -- stays in the observable and makes two runs differ.
-//   value / stdout:
-//     (*pkg.Type)(0x..)            Go-syntax dump of a struct (togo returns fmt %#v of the shadow struct)
-//     global (0x..) | scope Name: 'x' (0x..) | <label>  <name> (0x..)   Scope.Show prints %p of every scope
-//     already-saw Stack 0x.. in Show | already-saw Scope 0x..            Stack.Show / Scope.Show cycle marker
-//     top of NewClosing at 0x..
-//   error text:
-//     (*zygo.HashFieldDet)(0x..)   the unknown-field panic of SexpToGoStructs dumps JsonTagMap with %#v
+//
+//	value / stdout:
+//	  (*pkg.Type)(0x..)            Go-syntax dump of a struct (togo returns fmt %#v of the shadow struct)
+//	  global (0x..) | scope Name: 'x' (0x..) | <label>  <name> (0x..)   Scope.Show prints %p of every scope
+//	  already-saw Stack 0x.. in Show | already-saw Scope 0x..            Stack.Show / Scope.Show cycle marker
+//	  top of NewClosing at 0x..
+//	error text:
+//	  (*zygo.HashFieldDet)(0x..)   the unknown-field panic of SexpToGoStructs dumps JsonTagMap with %#v
 var ptrContextsVO = []*regexp.Regexp{
 	regexp.MustCompile(`(\(\*[A-Za-z0-9_.]+\)\()0x[0-9a-fA-F]{7,}(\))`),
 	regexp.MustCompile(`((?:global|scope Name: '[^'\n]*'|elem \d+ of [^\n]*?) \()0x[0-9a-fA-F]{7,}(\))`),
@@ -41,6 +43,11 @@ var ptrContextsVO = []*regexp.Regexp{
 var ptrContextsE = []*regexp.Regexp{
 	regexp.MustCompile(`(\(\*zygo\.HashFieldDet\)\()0x[0-9a-fA-F]{7,}(\))`),
 }
+
+// error messages of the code as it is that dump the offending value with %v / %#v (Go struct
+// dump, heap addresses included): from the listed phrase to the end of the message every address
+// is stripped.  A NEW message that dumps a value is not listed and keeps its addresses.
+var dumpingErrors = regexp.MustCompile(`We see \*?[\w.]+: '|but saw (?:type )?\*?[\w.]+/val=|(?:instead we have|but we had|we saw) \*?[\w.]+ / val = '?|could not be evaluated to integer; got j = '|not a function on top of datastack: '`)
 
 // norm strips goroutine ids and the allow-listed heap addresses.  The library appends the Go
 // stack trace of a recovered panic to the error text: that block (frames of the host program,
@@ -60,9 +67,16 @@ func norm(s string, field byte) string {
 	for _, re := range ctx {
 		s = re.ReplaceAllString(s, "${1}0xPTR${2}")
 	}
+	if field == 'e' {
+		if loc := dumpingErrors.FindStringIndex(s); loc != nil {
+			s = s[:loc[1]] + ptrRe.ReplaceAllString(s[loc[1]:], "0xPTR")
+		}
+	} else if ptrWhole.MatchString(s) {
+		s = "0xPTR" // a pointer value printed by itself: (& x) prints its address
+	}
 	s = gorRe.ReplaceAllString(s, "goroutine N")
-	if len(s) > 6000 {
-		s = s[:6000] + "...[cut]"
+	if len(s) > 60000 {
+		s = s[:60000] + "...[cut]"
 	}
 	return s
 }
@@ -146,6 +160,40 @@ func evalCaptured2(src string) (Obs, string, string, []string) {
 			res = lib.Result{Class: lib.OutValue, Val: zygo.SexpNull}
 			return
 		}
+		if strings.HasPrefix(src, eachLinePrefix) {
+			// one evaluation per line in the same interpreter; value or error text of every line
+			var sb strings.Builder
+			for i, line := range strings.Split(strings.TrimPrefix(src, eachLinePrefix), "\n") {
+				if strings.TrimSpace(line) == "" {
+					continue
+				}
+				r := lib.Eval(env, line, stepBudget)
+				switch r.Class {
+				case lib.OutValue:
+					v := "<go-nil>"
+					if r.Val != nil {
+						v = r.Val.SexpString(nil)
+					}
+					if len(v) > 300 {
+						v = v[:300] + "..."
+					}
+					fmt.Fprintf(&sb, "%d: %s => %s\n", i, line, v)
+				case lib.OutError:
+					e := norm(r.Err.Error(), 'e')
+					if len(e) > 400 {
+						e = e[:400] + "..."
+					}
+					fmt.Fprintf(&sb, "%d: %s => ERROR %s\n", i, line, e)
+				case lib.OutPanic:
+					fmt.Fprintf(&sb, "%d: %s => PANIC %v\n", i, line, r.Panic)
+					env = newEnv()
+				default:
+					fmt.Fprintf(&sb, "%d: %s => %s\n", i, line, r.Class)
+				}
+			}
+			res = lib.Result{Class: lib.OutValue, Val: &zygo.SexpStr{S: sb.String()}}
+			return
+		}
 		res = lib.Eval(env, src, stepBudget)
 	}()
 	os.Stdout = realOut
@@ -195,10 +243,44 @@ func disturb(k int, rng *lib.Rng, clean bool) {
 (def sn (snoopy cry:"d")) (togo sn) (def pk (package "pk%d" { A := 1; B := 2 })) (str pk)
 (defn f%d [x] (+ x %d)) (f%d 1) (defmac m%d [a] ^(+ ~a 1)) (m%d 2) (undefined_sym_%d)`, n, n, n, n, n, n, n, n)
 		}
-		func() {
+		// legal but unusual things an earlier interpreter may have done, none of which touches the
+		// type registry: generated names colliding with interned ones, infix index/field/assignment
+		// forms, macros, errors of several kinds.  One evaluation per line (errors do not stop the rest).
+		extra := []string{
+			// a generated name that is already interned: after (gensym) gave number m, interning the
+			// five names P(m+2)..P(m+6) moves the counter to m+6, so the next generated name P(m+6) is taken
+			`(begin (def m (symnum (gensym))) (for [(def i 2) (< i 7) (set i (+ i 1))] (str2sym (concat "tmp" (str (+ m i))))) (gensym "tmp"))`,
+			`(begin (def m (symnum (gensym))) (for [(def i 2) (< i 7) (set i (+ i 1))] (str2sym (concat "__gensym" (str (+ m i))))) (gensym))`,
+			`(begin (def m (symnum (gensym))) (for [(def i 2) (< i 7) (set i (+ i 1))] (str2sym (concat "__anon" (str (+ m i))))) (fn [q] q))`,
+			`(gensym "tmp")`, `(gensym)`, `(gensym)`, `((fn [x] x) 1)`, `(def g2 (fn [a b] a))`, `(g2 1)`,
+			`(def a [10 20 30])`, `{a[1] + a[2]}`, `{a[0] = 5}`, `{b := a[2] * 2}`, `(def h (hash x:1))`, `{h.x + 1}`, `{h.x = 3}`,
+			`(for [(def i 0) (< i 3) (set i (+ i 1))] (cond (== i 1) (continue) i))`,
+			`(defmac mm [a] ^(let [t 1] (+ ~a t)))`, `(mm 2)`, `(hset h (hash q:1) 2)`, `(aget a 9)`, `(+ 1 "s")`,
+		}
+		runNormal := func() {
 			defer func() { recover() }()
 			lib.Eval(env, src, stepBudget)
-		}()
+			for _, line := range extra {
+				lib.Eval(env, line, stepBudget)
+			}
+		}
+		// an interpreter of the OTHER kind (sandboxed: a different builtin set, hence different
+		// symbol numbers) parses and runs the same forms -- before or after the normal one
+		runSandbox := func() {
+			defer func() { recover() }()
+			sb := zygo.NewZlispSandbox()
+			sb.StandardSetup()
+			for _, line := range extra {
+				lib.Eval(sb, line, stepBudget)
+			}
+		}
+		if i%2 == 0 {
+			runSandbox()
+			runNormal()
+		} else {
+			runNormal()
+			runSandbox()
+		}
 	}
 }
 
@@ -332,6 +414,7 @@ func aliasGroups() [][]string {
 }
 
 const cliPrefix = "#cli-countcalls\n"
+const eachLinePrefix = "#each-line\n"
 
 func runCli(script string) {
 	f, err := os.CreateTemp("", "c20-*.zy")
